@@ -330,6 +330,24 @@ def prio(index, rep):
     inl = Inliner(main)
     built = inl.src(lst_e) if lst else ""
     import re as _re
+    # built in a module-level set-up function that main calls: read there (slot k of what that function returns)
+    try:
+        b_ = ast.parse(built, mode="eval").body if built else None
+    except SyntaxError:
+        b_ = None
+    slot_ = None
+    if isinstance(b_, ast.Subscript) and isinstance(b_.slice, ast.Constant) and isinstance(b_.slice.value, int):
+        slot_, b_ = b_.slice.value, b_.value
+    if isinstance(b_, ast.Call) and isinstance(b_.func, ast.Name):
+        setup = index.func(ANIM, b_.func.id, required=False)
+        if setup is not None:
+            rets_ = [r_ for r_ in walk_no_nested(setup) if isinstance(r_, ast.Return) and r_.value is not None]
+            if len(rets_) == 1:
+                rv_ = rets_[0].value
+                if slot_ is not None and isinstance(rv_, ast.Tuple) and slot_ < len(rv_.elts):
+                    built = Inliner(setup).src(rv_.elts[slot_])
+                elif slot_ is None:
+                    built = Inliner(setup).src(rv_)
     okl = bool(_re.fullmatch(r"\[(\w+) for \1 in (.+)\.values\(\)\]|list\((.+)\.values\(\)\)", built))
     rep.check(okl, rule, "all_animals = dict order", f"the list of animals fed is not built from the sorted dictionary's order ({built[:80]})", loc=loc(ANIM, main))
     reorder = []
